@@ -85,7 +85,16 @@ class ValueGen:
         """A value for the top-level class `name`."""
         body, _c, _i = self.it.body_of((name,))
         self.ff_free = self.dialect == "wu" and has_chunked(self.it, body)
-        return self.obj((name,), False)
+        # 0xFF-capable data is only a problem ahead of or inside a chunked section: everything after the
+        # last top-level instruction that contains one (directly or through a struct / case) is free again
+        self._free_after = None
+        if self.ff_free:
+            last = max(i for i, ins in enumerate(body) if has_chunked(self.it, [ins]))
+            self._free_after = (id(body), last)
+        try:
+            return self.obj((name,), False)
+        finally:
+            self._free_after = None
 
     def obj(self, cls, sanitized):
         body, chunked, _inh = self.it.body_of(tuple(cls))
@@ -147,7 +156,10 @@ class ValueGen:
 
     def _body(self, body, cls, fields, st, sanitized):
         rng = self.rng
-        for ins in body:
+        fa = getattr(self, "_free_after", None)
+        for idx, ins in enumerate(body):
+            if fa is not None and fa[0] == id(body) and idx > fa[1]:
+                self.ff_free = False
             k = ins.kind
             if k == "length":
                 self._len_decl = dict(self._len_decl)
